@@ -909,7 +909,11 @@ func (dc *DirectConnection) WriteSetStatement() error {
 		appendSetVariable(&setVariableSQL, v.Name(), v.Get())
 	}
 
-	for _, v := range dc.sessionVariables.GetUnusedAndClear() {
+	unused := dc.sessionVariables.GetUnusedAndClear()
+	for _, v := range unused {
+		if _, ok := dc.sessionVariables.Get(v.Name()); ok {
+			continue
+		}
 		appendSetVariableToDefault(&setVariableSQL, v.Name())
 	}
 
@@ -918,6 +922,8 @@ func (dc *DirectConnection) WriteSetStatement() error {
 		return nil
 	}
 	if _, err := dc.exec(setSQL, 0); err != nil {
+		// the backend session keeps its previous values
+		dc.sessionVariables.Invalidate(unused)
 		return err
 	}
 	return nil
